@@ -771,7 +771,7 @@ func extraC10(col *Collector, r *RNG, tier string) {
 // rowsOnlyHistory: transactions made of rows changes only, over the given tables (used by the end-to-end extras of
 // the cell-level properties: the value must survive Rows() -> getValuesFromRow / getIdentifiesFromRow -> ColumnData).
 func rowsOnlyHistory(r *RNG, cfg string, tables []*hTable, maxRows int) *hist {
-	h := &hist{cfg: cfg, ext: map[string][]string{}, tables: tables}
+	h := &hist{cfg: cfg, ext: map[string][]string{}, tables: tables, pad: r.Bool()}
 	o := histOpts{maxRows: maxRows}
 	ts := uint32(1600000000)
 	for u, nu := 0, r.Range(1, 4); u < nu; u++ {
